@@ -607,7 +607,12 @@ func TestVerifC19(t *testing.T) {
 			ResponseTimeout:     time.Duration(vInt(cases[0]["timeout_ms"])) * time.Millisecond,
 			BufferRequests:      vBool(m["buffer"]),
 			BufferResponses:     vBool(m["buffer"]),
-			MaxMemoryBufferSize: 64 * 1024,
+			MaxMemoryBufferSize: func() int64 {
+				if v := vInt(m["mem"]); v > 0 {
+					return v
+				}
+				return 64 * 1024
+			}(),
 			MaxRequestBodySize:  vInt(m["max_req"]),
 			MaxResponseBodySize: vInt(m["max_resp"]),
 			LogRequestHeaders:   vStrList(m["log_req"]),
